@@ -250,6 +250,67 @@ def routing(mir):
     return got, spec
 
 
+def layout_obligations(mir):
+    """CodeOffsets::compute_indices lays the first-level index out as
+         [switch_on_term, switch_on_constant?, switch_on_structure?, list code ...]
+    (each emitter pushes to the front, so a line's final index is 1 + the number of lines emitted
+    after it): con stays, str = str0 + [constant line emitted], lst = lst0 + [constant line emitted]
+    + [structure line emitted]. The flags are locals written inside the emitters' closures; the
+    executor forgets them at those calls, so they are free 0/1 inputs. z3 decides the equalities for
+    every path on which the pointer is Internal. -> (queries, meta)"""
+    from .smtgen import Encoder
+    names = [n for n in mir.index if n.endswith("::compute_indices") and n.startswith("indexing::")]
+    if len(names) != 1:
+        raise core.Unsupported("compute_indices: %s" % names)
+    body = mir.body(names[0])
+    dbg = body.debug
+    need = ("lst_loc", "str_loc", "con_loc", "emitted_switch_on_structure", "emitted_switch_on_constant")
+    loc = {}
+    for k in need:
+        m = re.match(r"^(_\d+)", str(dbg.get(k, "")))
+        if not m:
+            raise core.Unsupported("compute_indices: local %s not found in debug info" % k)
+        loc[k] = m.group(1)
+    heads = util.back_edge_targets(body)
+    paths = core.Executor(body, stop_blocks=tuple(heads), max_depth=300, max_paths=2000).run("bb0")
+    queries, meta = [], []
+    for p in paths:
+        if p.end != "return":
+            continue
+        fc = p.env.get(loc["emitted_switch_on_constant"])
+        fs = p.env.get(loc["emitted_switch_on_structure"])
+        if fc is None or fs is None or fc[0] != "s" or fs[0] != "s":
+            continue            # the path that returns before emitting anything
+        for which, adds in (("lst_loc", (fc, fs)), ("str_loc", (fc,)), ("con_loc", ())):
+            base = p.env.get(loc[which])
+            if base is None or base[0] != "app":
+                continue
+            internal = [c for c in p.conds if c[0] == ("disc", base) and c[1] == "==" ]
+            stored = p.env.get("(%s as Internal).0" % loc[which])
+            if which != "con_loc" and not internal:
+                continue        # not an Internal pointer on this path: nothing to shift
+            enc = Encoder()
+            b0 = enc.bv(("proj", ("proj", base, " as Internal"), ".0"))
+            cur = enc.bv(stored) if stored is not None else b0
+            want = b0
+            for f in adds:
+                want = "(bvadd %s %s)" % (want, enc.bv(f))
+            flags01 = " ".join("(bvule %s #x0000000000000001)" % enc.bv(f) for f in (fc, fs))
+            queries.append(enc.decls() + "\n(assert (and true %s))\n(assert (not (= %s %s)))" % (flags01, cur, want))
+            meta.append({"pointer": which, "shift": ["constant line", "structure line"][:len(adds)],
+                         "stored": util.term_str(stored)[:160] if stored is not None else "(unchanged)"})
+    if not queries:
+        raise core.Unsupported("compute_indices: no Internal pointer path found")
+    # dedupe
+    seen, uq, um = set(), [], []
+    for q, m in zip(queries, meta):
+        if q not in seen:
+            seen.add(q)
+            uq.append(q)
+            um.append(m)
+    return uq, um
+
+
 def run(thorough=False):
     try:
         mir, secs, cached = util.get()
@@ -258,6 +319,7 @@ def run(thorough=False):
         hf = helper_facts(mir)
         cl = clause_side(mir)
         af = alternatives_fn(mir)
+        lay_q, lay_m = layout_obligations(mir)
     except Exception as e:  # noqa
         log("  mirsmt C06: cannot extract (%s)" % e)
         return {"exit": EXIT_INCONCLUSIVE, "mirsmt_error": str(e)}
@@ -332,12 +394,13 @@ def run(thorough=False):
         len(keys), a, b)
     rt_diffs = [{"kind": k, "routed_to": rt_got.get(k), "expected": rt_spec.get(k)} for k in keys
                 if rt_got.get(k) != rt_spec.get(k)]
-    br = smt.check_batch([q_fit, q_big, q_rt], thorough=thorough,
-                         getvals=[["L", "A"], ["L", "A"], ["f"]])
-    res = {"evaluations": 3, "distinct_nontrivial": 0, "samples": [],
+    br = smt.check_batch([q_fit, q_big, q_rt] + lay_q, thorough=thorough,
+                         getvals=[["L", "A"], ["L", "A"], ["f"]] + [[]] * len(lay_q))
+    res = {"evaluations": 3 + len(lay_q), "distinct_nontrivial": 0, "samples": [],
            "mirsmt_routing": rt_got,
            "mirsmt_regions": ["execute_switch_on_term (SwitchOnConstant arm)",
-                              "CodeOffsets::index_constant", "constant_key_alternatives"],
+                              "CodeOffsets::index_constant", "constant_key_alternatives",
+                              "CodeOffsets::compute_indices (layout of the first-level index)"],
            "mirsmt_facts": {"lookup_sites": cs, "helper": hf, "site_normalises": site_norm,
                             "call_guard_constant": tagc, "clause_side": cl,
                             "constant_key_alternatives": af},
@@ -410,5 +473,23 @@ def run(thorough=False):
             exit_code = EXIT_INCONCLUSIVE
     elif exit_code == EXIT_OK:
         exit_code = EXIT_INCONCLUSIVE
+    lay_bad = []
+    for m, r in zip(lay_m, br["results"][3:]):
+        if r["answer"] == "unsat":
+            res["distinct_nontrivial"] += 1
+        else:
+            lay_bad.append({**m, "answer": r["answer"]})
+        res["samples"].append({"query": "compute_indices: final %s = emitted index + [%s]" % (
+            m["pointer"], " + ".join(m["shift"]) or "nothing"), "answer": r["answer"], "stored": m["stored"]})
+    log("  mirsmt C06: compute_indices layout: %d pointer obligations, %d violated" % (len(lay_m), len(lay_bad)))
+    if lay_bad:
+        res["mirsmt_layout_violations"] = lay_bad
+        rp = prolog.replay_index_routing(lay_bad)
+        if rp["reproduced"]:
+            log("VIOLATION property=C06 replay=%s" % rp["path"])
+            exit_code = EXIT_VIOLATION
+        elif exit_code == EXIT_OK:
+            log("  mirsmt C06: layout difference did not reproduce (%s) -> inconclusive" % rp.get("why"))
+            exit_code = EXIT_INCONCLUSIVE
     res["exit"] = exit_code
     return res
